@@ -139,6 +139,8 @@ def check(chk, fx):
     # with a cstring_buffer the stacks are fixed arrays: recovery "fails exactly when ..." only if its pushes fit
     from .. import caprules
     caprules.cap_s(chk, fx, only=("initial state", "shift", "shift_recovery_token"))
+    from .. import primrules
+    primrules.prims(chk, fx, "GAPI")
     from .. import deporder, goldenreg as _gr
     deporder.group(chk, fx, "DEPORD", "dependence order of statements (driver and recovery)", _gr.DEP_GROUPS["DRV"])
 
